@@ -939,7 +939,7 @@ class C04(Prop):
     batch = 250
 
     def n_random(self, tier: str) -> int:
-        return 26000 if tier == "quick" else 480000
+        return 20000 if tier == "quick" else 480000
 
     def strategy(self, tier: str, disabled: frozenset[str]):
         return st.one_of(chain_case(), chain_case(), chain_case(), chain_case(), prog_case())
